@@ -150,6 +150,12 @@ func runCKKSRefreshBody(c CKKSCase, rec *h.Rec) error {
 	D := new(big.Float).SetPrec(512).SetMantExp(big.NewFloat(1), oSpec.LogScale) // default scale of the output parameters
 	Df, _ := D.Float64()
 
+	drng := h.NewSplitMix(c.Seed ^ 0xd1b54a32d192ed03)
+	dd := dirtier{on: c.Dirty, rng: drng, rQ: params.RingQ()}
+	ddO := dirtier{on: c.Dirty, rng: drng, rQ: paramsOut.RingQ()}
+	if c.Dirty {
+		rec.Class("receivers=earlier-content")
+	}
 	var prevOut *rlwe.Ciphertext
 	var lastTol float64
 
@@ -204,6 +210,8 @@ func runCKKSRefreshBody(c CKKSCase, rec *h.Rec) error {
 		for i := 0; i < n; i++ {
 			p := inst[i]
 			shares[i] = p.AllocateShare(r.levelE, r.levelO)
+			dd.poly(shares[i].EncToShareShare.Value)
+			ddO.poly(shares[i].ShareToEncShare.Value)
 			if isT {
 				err = p.GenShare(x.in.shares[i], outKeys.shares[i], m.logBound, ct, crp, tf, &shares[i])
 			} else {
@@ -290,7 +298,12 @@ func runCKKSRefreshBody(c CKKSCase, rec *h.Rec) error {
 				return h.Failf("C16:mpckks:"+c.Mode+":AggregateShares:error", "%v", err)
 			}
 		}
-		agg, err := fold(shares, r.merges, func() multiparty.RefreshShare { return mltp0.AllocateShare(r.levelE, r.levelO) },
+		agg, err := fold(shares, r.merges, func() multiparty.RefreshShare {
+			a := mltp0.AllocateShare(r.levelE, r.levelO)
+			dd.poly(a.EncToShareShare.Value)
+			ddO.poly(a.ShareToEncShare.Value)
+			return a
+		},
 			func(a, b multiparty.RefreshShare, o *multiparty.RefreshShare) error { return mltp0.AggregateShares(&a, &b, o) })
 		if err != nil {
 			return h.Failf("C16:mpckks:"+c.Mode+":AggregateShares:error", "%v", err)
